@@ -553,9 +553,37 @@ fn extreme_id_maps(rng: &mut Rng, count: usize, emit: &mut dyn FnMut(String)) {
     }
 }
 
+/// `q_degseq` on sparse AdjacencyLists whose order times the thread count exceeds 2^20 (66 000 … 524 289):
+/// ~200 arcs, all leaving the last 200 rows, so the description is short (the observation carries the
+/// vertex list: 0.5 – 4 MB per case). The driver runs the `Array` twin of the model (`degreeSequenceFast`)
+/// and a hash-map oracle: 1 – 5 s per case. Also used by the C17 stress stream.
+pub fn gen_degseq_huge(rng: &mut Rng, emit: &mut dyn FnMut(String)) {
+    // 16 CPUs: order > 65 536; >= 6 CPUs: 200 000; 3 CPUs: > 349 525; 2 CPUs: > 524 288
+    degseq_huge_orders(rng, &[70_000, 66_000, 131_073, 200_000, 350_001, 524_289], emit);
+}
+
+fn degseq_huge_orders(rng: &mut Rng, orders: &[usize], emit: &mut dyn FnMut(String)) {
+    for &n in orders {
+        let mut set = std::collections::BTreeSet::new();
+        while set.len() < 200 {
+            let u = n - 1 - rng.below(200);
+            let v = rng.below(n);
+            if u != v {
+                let _ = set.insert((u, v));
+            }
+        }
+        let mut arcs: Vec<(usize, usize)> = set.into_iter().collect();
+        rng.shuffle(&mut arcs);
+        let d = plain("al", (0..n).collect(), arcs);
+        emit(format!("q_degseq {}", d.to_v()));
+    }
+}
+
 /// The stress stream (only generated when a tie is broken and a failing input is searched for).
 /// Most promising first; whole stream ~ 20 s of harness + driver time per thread mask.
 fn gen_stress(rng: &mut Rng, emit: &mut dyn FnMut(String)) {
+    // (0) order x CPUs > 2^20 (caps on the per-thread tallies)
+    gen_degseq_huge(rng, emit);
     // (1) the threaded degree_sequence far above the thread count: 256-row thresholds and beyond
     for &n in &[257usize, 300, 513, 770, 1030, 192, 255, 256, 511, 600, 777, 1100] {
         for shape in 0..3 {
@@ -593,6 +621,7 @@ fn gen_ood(rng: &mut Rng, emit: &mut dyn FnMut(String)) {
         emit(format!("q_degseq {}", d.to_v()));
     }
     extreme_id_maps(rng, 2, emit);
+    degseq_huge_orders(rng, &[70_000], emit); // order x 16 CPUs > 2^20
     emit(long_walk_line(rng, "am", &[2, 3, 11, 64, 65, 1000], 4096, false));
     emit(long_walk_line(rng, "al", &[0, 1, 2, 3, 4], 4096, false));
 }
